@@ -122,6 +122,10 @@ def step (st : DState) (toks : List String) : DState × String :=
           | some n, some sp => ({ st with tm := st.tm.replace n sp }, "ok")
           | _, _ => (st, "bad-op")
       | ["shutdown"] => ({ st with tm := st.tm.shutdownOp }, "ok")
+      | ["selfshutdown", n] =>
+          match n.toNat? with
+          | some n => ({ st with tm := st.tm.shutdownFrom n }, "ok")
+          | none => (st, "bad-op")
       | ["active", n] =>
           match n.toNat? with
           | some n => (st, b01 (st.tm.isActive n))
